@@ -146,6 +146,21 @@ func vpDrawCall(tag string, hd uint64) vpWireCall {
 	return c
 }
 
+// vpDrawNarrowCall: a NULL or GETATTR call with a symbolic xid and message type (so it is either a
+// well-formed call or a record the server cannot decode as a call).
+func vpDrawNarrowCall(tag string, hd uint64) vpWireCall {
+	var b vpBuf
+	c := vpWireCall{xid: vpU32(tag + ".xid")}
+	msgType := vpU32(tag + ".msgtype")
+	proc := []uint32{NFSPROC3_NULL, NFSPROC3_GETATTR}[vpChoose(tag+".procsel", 0, 1)]
+	b.u32(c.xid).u32(msgType).u32(2).u32(NFS_PROGRAM).u32(NFS_V3).u32(proc)
+	b.u32(AUTH_NONE).u32(0).u32(AUTH_NONE).u32(0)
+	b.fh(hd)
+	c.bytes = b.Bytes()
+	c.decodable = msgType == RPC_CALL
+	return c
+}
+
 func vpFrame(payload []byte) []byte {
 	var b vpBuf
 	b.u32(uint32(len(payload)) | LastFragmentFlag).raw(payload)
@@ -165,7 +180,14 @@ func VPH_C15_stream() {
 	var in []byte
 	var calls []vpWireCall
 	for i := 0; i < nrec; i++ {
-		c := vpDrawCall([]string{"a", "b"}[i], hd)
+		var c vpWireCall
+		if nrec == 2 && i == 0 {
+			// two records: the first from a narrow menu, the second (which meets whatever state the
+			// first left on the connection) in full generality; both fully general did not finish
+			c = vpDrawNarrowCall("a", hd)
+		} else {
+			c = vpDrawCall([]string{"a", "b"}[i], hd)
+		}
 		calls = append(calls, c)
 		in = append(in, vpFrame(c.bytes)...)
 	}
